@@ -412,6 +412,13 @@ theorem inv_rm_prefix (pm : List (Bytes × List Nat)) (newls : List Nat) (p : By
           · cases heq
             exact ⟨ls', by simp only [lookupPrefix, if_neg hq]; exact h', hl'⟩
 
+/-- this is where the shape of Endpoint.remove_listener read from the source is used: it REBUILDS the lists, so a removal
+    during a dispatch leaves the list object the loop iterates untouched (with in-place removal the model skips
+    listeners and `receive_all_recipients_called` is false) -/
+theorem applyOp_rm (key : Option Bytes) (s : DS) (x : Nat) :
+    applyOp key s (.rm x) = { s with reg := s.reg.removeListener x, attached := false } := by
+  simp [applyOp, Gen.rmRebuilds]
+
 theorem applyOp_inv (key : Option Bytes) (p : Bytes) (l : Nat) (s : DS) (op : RegOp)
     (hop : op ≠ .rm l ∧ op ≠ .setOpen false) (hopen : s.reg.isOpen = true) (hinv : Reg.Inv s.reg p l) :
     (applyOp key s op).reg.table = s.reg.table ∧ (applyOp key s op).reg.isOpen = true ∧ Reg.Inv (applyOp key s op).reg p l
@@ -449,8 +456,9 @@ theorem applyOp_inv (key : Option Bytes) (p : Bytes) (l : Nat) (s : DS) (op : Re
           · rw [if_neg hqp]; exact ⟨ls, h, hl⟩
   | rm x =>
     have hne : l ≠ x := by intro h; apply hop.1; rw [h]
-    refine ⟨rfl, hopen, ?_, [], by simp [applyOp]⟩
-    simp only [applyOp, Registry.removeListener]
+    rw [applyOp_rm]
+    refine ⟨rfl, hopen, ?_, [], by simp⟩
+    simp only [Registry.removeListener]
     rcases hinv with h | ⟨ls, h, hl⟩
     · left; simp at h ⊢; exact ⟨h, hne⟩
     · rcases inv_rm_prefix s.reg.prefixMap (s.reg.listeners.filter (· != x)) p l x hne ls h hl with h' | h'
